@@ -870,3 +870,25 @@ CAMLprim value vp_cov_dump(value unit)
 #endif
 	return Val_unit;
 }
+
+/* ---- my_fileset_reload's reading of a setfile text, seen directly: the paths it loads (those that exist), in its order ---- */
+#include "libmy/my_fileset.h"
+static void *vp_mfs_load(struct my_fileset *fs, const char *fname) { (void) fs; return strdup(fname); }
+static void vp_mfs_unload(struct my_fileset *fs, const char *fname, void *ptr) { (void) fs; (void) fname; free(ptr); }
+CAMLprim value vp_my_fileset_names(value path)
+{
+	CAMLparam1(path); CAMLlocal3(l, c, str);
+	struct my_fileset *fs = my_fileset_init(String_val(path), vp_mfs_load, vp_mfs_unload, NULL);
+	my_fileset_reload(fs);
+	size_t n = 0; const char *fn; void *p;
+	while (my_fileset_get(fs, n, &fn, &p)) n++;
+	l = Val_emptylist;
+	while (n > 0) {
+		n--;
+		my_fileset_get(fs, n, &fn, &p);
+		str = caml_copy_string(fn);
+		c = caml_alloc(2, 0); Store_field(c, 0, str); Store_field(c, 1, l); l = c;
+	}
+	my_fileset_destroy(&fs);
+	CAMLreturn(l);
+}
